@@ -290,7 +290,7 @@ FUZZ_IMPORTS = ['mwlib.core.nshandling']
 
 
 def run_shard(ctx):
-    n = ctx.n(40000, 1600000)
+    n = ctx.n(40000, 800000)
 
     @ctx.settings(n)
     @given(cases())
@@ -310,5 +310,5 @@ def run_shard(ctx):
         check(ctx, case)
 
     ctx.run_given(t)
-    ctx.fuzz_campaign("", (0, 640000))
+    ctx.fuzz_campaign("", (0, 320000))
     ctx.note("ambiguous_namespace_names_skipped", sum(site(l, False)[3] for l in LANGS) if ctx.shard == 0 else 0)
